@@ -1,16 +1,12 @@
 """C19 -- sparse Lie-group derivative routines equal the dense ones (structural clauses).
 
-O1 (A) block-offset discipline: every coeffRef(r,c) in the *_sparse writers has r = i0 + X, c = i0 + Y
-       (Hessian: c = sp.rows()*(i0 + B) + (i0 + Y)) and every recursive call passes i0 + PartStart.
-O2 (A+I) published patterns contain every structurally non-zero entry: the hand-written patterns of lie_sparse<SE2>,
-       lie_sparse<SE3> are partially evaluated from the AST (constant loops, affine insert indices) and compared with
-       the cells of the dense dr_exp / dr_expinv / d2r_exp / d2r_expinv that are ever stored something other than the
-       constant 0 in the -ffast-math IR (x*0 -> 0 folding is exactly "zero for every finite a").  Commutative groups:
-       the generic pattern is the diagonal and the dense Jacobians store constants.
-O3 (A) lie_sparse<Bundle> pattern formulas place part blocks at (Dof0+r, Dof0+c) resp. (Dof0+r, Dof*(Dof0+c/Dp)+Dof0+c%Dp).
-O4 (A) the *_sparse writers never call structure-changing members (insert, resize, prune, setZero() on the matrix, ...).
+W1-W3 (engine M, props/c19m.py): the writers and the published patterns are abstractly executed on abstract groups / hosts.
+O2 (M+I) published patterns contain every structurally non-zero entry: the patterns as executed by W2 are compared with the
+       cells of the dense dr_exp / dr_expinv / d2r_exp / d2r_expinv that are ever stored something other than the constant 0
+       in the -ffast-math IR (x*0 -> 0 folding is exactly "zero for every finite a").  Commutative groups: the generic
+       pattern is the diagonal and the dense Jacobians store constants.
 O5 (I) Impl::ad is homogeneous-linear with one term per cell (cell = 0 or +-a[k]*c), hence sum_k a_k ad(e_k) = ad(a), which
-       is what ad_sparse computes from generators_sparse = ad(e_k).sparseView(); (A) generators_sparse is built that way.
+       is what ad_sparse computes from generators_sparse = ad(e_k).sparseView() (W3, W1).
 """
 import re
 
@@ -18,133 +14,9 @@ import astlib as A
 import fe
 import groups
 import ir
+import c19m
 import irw
 from report import Finding
-
-STRUCT_CHANGING = {"insert", "resize", "prune", "makeCompressed", "reserve", "setFromTriplets", "conservativeResize",
-                   "setIdentity", "uncompress", "swap", "insertBack", "startVec", "finalize", "data", "resizeNonZeros"}
-
-
-RAW_ACCESS = {"valuePtr", "innerIndexPtr", "outerIndexPtr", "innerNonZeroPtr", "coeffs", "data", "innerVector", "col", "row", "block"}
-READ_ONLY = {"isCompressed", "rows", "cols", "nonZeros", "outerSize", "innerSize", "coeff", "size"}
-
-
-class PEError(Exception):
-    pass
-
-
-def pe_int(e, env):
-    t = e[0]
-    if t == "num":
-        return int(e[1])
-    if t == "bool":
-        return int(e[1])
-    if t == "ref":
-        if e[1] in env:
-            return env[e[1]]
-        raise PEError("unknown name %s" % e[1])
-    if t == "op":
-        op = e[1]
-        if op == "&&":
-            return int(bool(pe_int(e[2], env)) and bool(pe_int(e[3], env)))
-        if op == "||":
-            return int(bool(pe_int(e[2], env)) or bool(pe_int(e[3], env)))
-        a, b = pe_int(e[2], env), pe_int(e[3], env)
-        return {"+": lambda: a + b, "-": lambda: a - b, "*": lambda: a * b, "/": lambda: a // b, "%": lambda: a % b,
-                "<": lambda: int(a < b), "<=": lambda: int(a <= b), ">": lambda: int(a > b), ">=": lambda: int(a >= b),
-                "==": lambda: int(a == b), "!=": lambda: int(a != b)}[op]()
-    if t == "cond":
-        return pe_int(e[2], env) if pe_int(e[1], env) else pe_int(e[3], env)
-    if t == "un" and e[1] == "!":
-        return int(not pe_int(e[2], env))
-    if t == "neg":
-        return -pe_int(e[1], env)
-    raise PEError("cannot evaluate %s" % A.show(e)[:60])
-
-
-def pe_stmt(n, env, out):
-    k = n.get("kind")
-    ks = [c for c in A.kids(n)]
-    if k == "CompoundStmt":
-        for c in ks:
-            pe_stmt(c, env, out)
-    elif k == "DeclStmt":
-        for v in ks:
-            if v.get("kind") == "VarDecl":
-                init = A.kids(v)
-                if v.get("name") == "ret":
-                    dims = [A.to_expr(x) for x in A.kids(A.strip(init[-1]))] if init else []
-                    if init and init[-1].get("kind") == "ParenListExpr":
-                        dims = [A.to_expr(x) for x in A.kids(init[-1])]
-                    out["dims"] = tuple(pe_int(d, env) for d in dims[:2])
-                elif init:
-                    env[v.get("name")] = pe_int(A.to_expr(init[-1]), env)
-    elif k == "ForStmt":
-        init, _cv, cond, inc, body = (ks + [None] * 5)[:5]
-        pe_stmt(init, env, out)
-        guard = 0
-        while pe_int(A.to_expr(cond), env):
-            pe_stmt(body, env, out)
-            ie = A.to_expr(inc)
-            if ie[0] == "un" and ie[1].startswith("++") and ie[2][0] == "ref":
-                env[ie[2][1]] += 1
-            else:
-                raise PEError("unsupported loop increment")
-            guard += 1
-            if guard > 100000:
-                raise PEError("loop does not terminate")
-    elif k == "IfStmt":
-        c = pe_int(A.to_expr(ks[0]), env)
-        if c:
-            pe_stmt(ks[1], env, out)
-        elif len(ks) > 2:
-            pe_stmt(ks[2], env, out)
-    elif k in ("BinaryOperator", "CXXOperatorCallExpr"):
-        e = A.to_expr(n)
-        if e[0] == "op" and e[1] == "=" and e[2][0] == "mcall" and e[2][2] == "insert":
-            r, c = (pe_int(a, env) for a in e[2][4])
-            if (r, c) in out["cells"]:
-                out["dups"].append((r, c))
-            out["cells"].add((r, c))
-        else:
-            raise PEError("unsupported statement %s" % A.show(e)[:60])
-    elif k in ("CallExpr", "CXXMemberCallExpr"):
-        e = A.to_expr(n)
-        if e[0] == "mcall" and e[2] in ("makeCompressed",):
-            return
-        raise PEError("unsupported call %s" % A.show(e)[:60])
-    elif k == "ReturnStmt" or k is None:
-        return
-    else:
-        raise PEError("unsupported statement kind %s" % k)
-
-
-def eval_pattern(var_decl):
-    lam = None
-    for x in A.walk(var_decl):
-        if x.get("kind") == "LambdaExpr":
-            lam = x
-            break
-    if lam is None:
-        raise PEError("pattern initialiser is not a lambda")
-    out = {"dims": None, "cells": set(), "dups": []}
-    pe_stmt(A.lambda_body(lam), {}, out)
-    return out
-
-
-def spec_classes(objs):
-    specs = {}
-    for o in objs:
-        if o.get("kind") == "ClassTemplatePartialSpecializationDecl" and o.get("name") == "lie_sparse":
-            head = A.text(o)[:400]
-            for tag in ("SE2Base", "SE3Base", "BundleBase"):
-                if re.search(r"is_base_of_v<\s*" + tag, head):
-                    specs[tag] = o
-    return specs
-
-
-DENSE = {"SE2Base": ("smooth::SE2<double>", 3), "SE3Base": ("smooth::SE3<double>", 6)}
-
 
 def dense_nonzeros(tier):
     """cells (r,c) of the dense derivative functions that are ever stored something else than the constant 0."""
@@ -159,29 +31,16 @@ def dense_nonzeros(tier):
     return W.build()
 
 
-def check_o2(rep, objs, tier):
-    rep.rule("O2", "published sparsity pattern contains every structurally non-zero entry of the dense result", minimum=12)
-    specs = spec_classes(objs)
-    for tag in ("SE2Base", "SE3Base", "BundleBase"):
-        if tag not in specs:
-            rep.broke("lie_sparse specialisation for %s not found" % tag)
+def check_o2(rep, executed, tier):
+    rep.rule("O2", "published sparsity pattern (as abstractly executed by W2) contains every structurally non-zero entry of the dense result", minimum=12)
     patterns = {}
-    for tag in ("SE2Base", "SE3Base"):
-        if tag not in specs:
-            continue
-        for v in A.kids(specs[tag]):
-            if v.get("kind") == "VarDecl" and v.get("name") in ("d_exp_sparse_pattern", "d2_exp_sparse_pattern"):
-                try:
-                    p = eval_pattern(v)
-                except PEError as e:
-                    f, l = A.loc(v)
-                    rep.broke("cannot partially evaluate %s of lie_sparse<%s> (%s:%s): %s" % (v.get("name"), tag, fe.rel(f), l, e))
-                    continue
-                patterns[(tag, v.get("name"))] = (p, v)
-                if p["dups"]:
-                    f, l = A.loc(v)
-                    rep.violation(Finding("O2", "lie_sparse<%s>::%s" % (tag, v.get("name")), "duplicate-insert",
-                                          "pattern inserts cell(s) %s twice (Eigen::SparseMatrix::insert requires a new entry)" % p["dups"][:3], f, l))
+    for tag, gname in (("SE2Base", "SE2"), ("SE3Base", "SE3")):
+        for v in ("d_exp_sparse_pattern", "d2_exp_sparse_pattern"):
+            p = executed.get((v, gname))
+            if p is None:
+                rep.broke("O2: no executed pattern %s<%s>" % (v, gname))
+                continue
+            patterns[(tag, v)] = ({"cells": set(p.e), "dims": (p.rows, p.cols)}, None)
     facts = dense_nonzeros(tier)
     rep.unit("%d dense derivative witnesses (-ffast-math zero-structure build)" % len(facts))
     for fname, (ff, meta, mod) in sorted(facts.items()):
@@ -225,188 +84,6 @@ def check_o2(rep, objs, tier):
 
 
 # ----------------------------------------------------------------------------------------------
-
-def subst_locals(e, locs, depth=0):
-    if depth > 20 or not isinstance(e, tuple):
-        return e
-    if e[0] == "ref" and e[1] in locs:
-        return subst_locals(locs[e[1]], locs, depth + 1)
-    if e[0] == "lambda":
-        return e
-    return tuple(subst_locals(x, locs, depth) if isinstance(x, tuple) else
-                 ([subst_locals(y, locs, depth) for y in x] if isinstance(x, list) else x) for x in e)
-
-
-def is_i0_plus(e):
-    """e == i0 + X with X free of i0"""
-    return e[0] == "op" and e[1] == "+" and e[2][0] == "ref" and e[2][1] == "i0" and "i0" not in A.refs(e[3])
-
-
-def writer_functions(idx):
-    out = []
-    for d in idx:
-        if d.kind in A.FUNCS and d.pattern and d.file and d.file.endswith("lie_group_sparse_impl.hpp") and A.body(d.node) is not None:
-            nm = d.qname.split("::")[-1]
-            if nm.endswith("_sparse"):
-                out.append(d)
-    return out
-
-
-def check_o1_o4(rep, idx):
-    rep.rule("O1", "every coeffRef / recursive call in the *_sparse writers is offset by i0", minimum=14)
-    rep.rule("O4", "*_sparse writers call no structure-changing member on the host matrix", minimum=8)
-    rep.rule("O6", "writers neither sweep whole host columns nor skip pattern entries on a value-dependent branch", minimum=0)
-    ws = writer_functions(idx)
-    if len(ws) < 9:
-        rep.broke("only %d *_sparse writer functions found in lie_group_sparse_impl.hpp (9 confirmed by hand)" % len(ws))
-    for d in ws:
-        b = A.body(d.node)
-        locs = {}
-        for x in A.walk(b):
-            if x.get("kind") == "VarDecl" and A.kids(x) and x.get("name") not in ("sp",):
-                ty = x.get("type", {}).get("qualType", "")
-                if x.get("name") in ("block", "row", "col", "Dof0"):
-                    locs[x.get("name")] = A.to_expr(A.kids(x)[-1])
-        has_i0 = any(p.get("name") == "i0" for p in A.params(d.node))
-        n_bad_struct = 0
-        parents = {}
-        for p_ in A.walk(b):
-            for c_ in A.kids(p_):
-                parents[id(c_)] = p_
-        # whole-matrix assignment replaces the structure
-        for x in A.walk(b):
-            if x.get("kind") in ("BinaryOperator", "CXXOperatorCallExpr"):
-                e = A.to_expr(x)
-                if e[0] == "op" and e[1] == "=" and e[2][0] == "ref" and e[2][1] == "sp":
-                    f, l = A.loc(x)
-                    n_bad_struct += 1
-                    rep.violation(Finding("O4", d.qname, "assign", "sparse writer assigns the whole host matrix (`%s`): its sparsity structure is replaced by that "
-                                          "of the right-hand side (entries that happen to be zero for this tangent vector disappear, other stored entries are lost)"
-                                          % A.show(e)[:70], f, l))
-        for x in A.walk(b):
-            if x.get("kind") not in ("CallExpr", "CXXMemberCallExpr"):
-                continue
-            e = A.to_expr(x)
-            f, l = A.loc(x)
-            if e[0] == "mcall" and e[1][0] == "ref" and e[1][1] == "sp":
-                m = e[2]
-                if m == "coeffRef":
-                    r, c = (subst_locals(a, locs) for a in e[4])
-                    ok = is_i0_plus(r)
-                    okc = is_i0_plus(c)
-                    if not okc:
-                        # Hessian form: sp.rows() * (i0 + B) + (i0 + Y)
-                        okc = (c[0] == "op" and c[1] == "+" and is_i0_plus(c[3]) and c[2][0] == "op" and c[2][1] == "*"
-                               and ((A.show(c[2][2]) == "sp.rows()" and is_i0_plus(c[2][3])) or (A.show(c[2][3]) == "sp.rows()" and is_i0_plus(c[2][2]))))
-                    rep.instance("O1", d.qname, "coeffRef@%s" % A.show(e[4][0])[:30], ok=ok and okc,
-                                 sample={"file": fe.rel(f), "line": l, "row": A.show(r), "col": A.show(c)})
-                    if not (ok and okc):
-                        rep.violation(Finding("O1", d.qname, "coeffRef",
-                                              "sparse writer addresses coeffRef(%s, %s): %s is not offset by the block offset i0 "
-                                              "(entries outside the designated block would be touched for i0 != 0)"
-                                              % (A.show(r), A.show(c), "row" if not ok else "column"), f, l))
-                elif m in STRUCT_CHANGING or (m == "setZero"):
-                    n_bad_struct += 1
-                    rep.violation(Finding("O4", d.qname, m, "sparse writer calls sp.%s(), which changes the sparsity structure / compression of the host matrix" % m, f, l))
-                elif m in RAW_ACCESS:
-                    # raw storage access: only `sp.coeffs().setZero()` of ad_sparse (zeroing the values, structure kept) is sanctioned
-                    par = parents.get(id(x))
-                    sanctioned = (m == "coeffs" and par is not None and (par.get("member") or par.get("name")) == "setZero"
-                                  and d.qname.split("::")[-1] == "ad_sparse")
-                    if not sanctioned:
-                        n_bad_struct += 1
-                        rep.violation(Finding("O1", d.qname, "raw:" + m,
-                                              "sparse writer reaches the host's storage through sp.%s() instead of coeffRef(row, col): entries are no longer "
-                                              "addressed by (block offset + row, block offset + column), so values can land in other stored entries of the "
-                                              "host's columns" % m, f, l))
-                elif m not in READ_ONLY:
-                    rep.broke("O4: unclassified member sp.%s() used in %s (%s:%s)" % (m, d.qname, fe.rel(f), l))
-            elif e[0] == "call" and isinstance(e[1], str) and re.search(r"(^|::)(d2?r_exp(inv)?_sparse)\b", e[1] or ""):
-                args = e[2]
-                if len(args) >= 3:
-                    a = subst_locals(args[2], locs)
-                    ok = is_i0_plus(a) or (a[0] == "ref" and a[1] == "i0")
-                    rep.instance("O1", d.qname, "call:%s" % e[1][-30:], ok=ok, sample={"file": fe.rel(f), "line": l, "offset_arg": A.show(a)})
-                    if not ok:
-                        rep.violation(Finding("O1", d.qname, "call", "recursive sparse call passes offset `%s`, expected i0 or i0 + <part start>" % A.show(a), f, l))
-                elif has_i0 and d.qname.split("::")[-1] not in ("dr_expinv_sparse", "d2r_expinv_sparse"):
-                    rep.violation(Finding("O1", d.qname, "call", "recursive sparse call drops the block offset argument", f, l))
-        # O6a: iterating the *host* matrix column by column reaches every stored row of that column, not only the rows of the block
-        for x in A.walk(b):
-            if x.get("kind") == "VarDecl" and "InnerIterator" in x.get("type", {}).get("qualType", "") and A.kids(x):
-                init = A.to_expr(A.kids(x)[-1])
-                args = init[2] if init[0] in ("ctor", "call") else (init[1] if init[0] == "init" else [])
-                if args and args[0][0] == "ref" and args[0][1] == "sp":
-                    itn = x.get("name")
-                    loop = parents.get(id(parents.get(id(x)))) if parents.get(id(x)) is not None else None
-                    scope = loop if loop is not None else b
-                    txt = A.ntext(scope)
-                    writes = (itn + ".valueRef()") in txt
-                    guarded = (itn + ".row()") in txt and "i0" in txt[txt.find(itn + ".row()"):txt.find(itn + ".row()") + 80]
-                    f, l = A.loc(x)
-                    rep.instance("O6", d.qname, "host iteration @%s" % l, ok=not writes or guarded, sample={"file": fe.rel(f), "line": l})
-                    if writes and not guarded:
-                        rep.violation(Finding("O6", d.qname, "host iteration",
-                                              "the writer iterates the stored entries of the host's column (`InnerIterator %s(sp, ...)`) and writes through "
-                                              "%s.valueRef() without restricting %s.row() to [i0, i0 + Dof): stored entries of other variables in the same "
-                                              "columns are overwritten" % (itn, itn, itn), f, l))
-        # O6b: a run-time branch on the tangent must still write the whole pattern
-        for x in A.walk_nolambda(b):
-            if x.get("kind") == "IfStmt" and not x.get("isConstexpr"):
-                ks_ = A.kids(x)
-                if not ks_:
-                    continue
-                cnd = A.to_expr(ks_[0])
-                if "a" not in A.refs(cnd):
-                    continue
-                f, l = A.loc(x)
-                then_txt = A.ntext(ks_[1]) if len(ks_) > 1 else ""
-                covers = "_sparse_pattern<" in then_txt or "_sparse(" in then_txt
-                rep.instance("O6", d.qname, "value-dependent branch @%s" % l, ok=covers, sample={"file": fe.rel(f), "line": l, "condition": A.show(cnd)[:60]})
-                if not covers:
-                    rep.violation(Finding("O6", d.qname, "value-dependent branch",
-                                          "for tangents with `%s` the writer takes a run-time branch that does not go over the published pattern: pattern entries it "
-                                          "does not write keep whatever the host held before (the block no longer equals the dense result)" % A.show(cnd)[:60], f, l))
-        rep.instance("O4", d.qname, "structure", ok=n_bad_struct == 0, sample={"file": fe.rel(d.file), "line": d.line})
-
-
-def check_o3(rep, objs):
-    rep.rule("O3", "lie_sparse<Bundle> pattern formulas follow the documented block placement", minimum=2)
-    specs = spec_classes(objs)
-    o = specs.get("BundleBase")
-    if o is None:
-        return
-    for v in A.kids(o):
-        if v.get("kind") != "VarDecl" or v.get("name") not in ("d_exp_sparse_pattern", "d2_exp_sparse_pattern"):
-            continue
-        locs = {}
-        inserts = []
-        for x in A.walk(v):
-            if x.get("kind") == "VarDecl" and A.kids(x) and x.get("name") in ("block", "row", "col"):
-                locs[x.get("name")] = A.to_expr(A.kids(x)[-1])
-            if x.get("kind") in ("CallExpr", "CXXMemberCallExpr"):
-                e = A.to_expr(x)
-                if e[0] == "mcall" and e[2] == "insert":
-                    inserts.append((e, x))
-        f, l = A.loc(v)
-        if len(inserts) != 1:
-            rep.broke("lie_sparse<Bundle>::%s: %d insert sites (1 confirmed by hand)" % (v.get("name"), len(inserts)))
-            continue
-        e, x = inserts[0]
-        r, c = (re.sub(r"\s", "", A.show(subst_locals(a, locs))) for a in e[4])
-        if v.get("name") == "d_exp_sparse_pattern":
-            ok = r == "(Dof0+it.row())" and c == "(Dof0+it.col())"
-            want = "(Dof0 + it.row(), Dof0 + it.col())"
-        else:
-            ok = (r == "(Dof0+it.row())" and
-                  re.match(r"^\(\(Dof(<G>)?\*\(Dof0\+\(it\.col\(\)/G::templatePartDof<I>\)\)\)\+\(Dof0\+\(it\.col\(\)%G::templatePartDof<I>\)\)\)$", c) is not None)
-            want = "(Dof0 + it.row(), Dof<G>*(Dof0 + it.col()/PartDof<I>) + Dof0 + it.col()%PartDof<I>)"
-        rep.instance("O3", "lie_sparse<Bundle>::" + v.get("name"), "insert", ok=ok, sample={"file": fe.rel(f), "line": l, "row": r, "col": c})
-        if not ok:
-            fx, lx = A.loc(x)
-            rep.violation(Finding("O3", "lie_sparse<Bundle>::" + v.get("name"), "insert",
-                                  "Bundle pattern inserts at (%s, %s); documented block placement is %s" % (r, c, want), fx, lx))
-
 
 def check_o5(rep, tier):
     rep.rule("O5", "Impl::ad cells are 0 or a single linear term in one tangent coordinate", minimum=5)
@@ -466,58 +143,18 @@ def _single_linear(ff, v, depth=0):
     return False
 
 
-def check_generators(rep, idx_all):
-    rep.rule("O5g", "generators_sparse[i] = ad<G>(Unit(i)).sparseView(); ad_sparse sums a(k)*generators[k]", minimum=2)
-    for d in idx_all:
-        if d.kind in ("VarDecl", "VarTemplateDecl") and d.qname.split("::")[-1] == "generators_sparse" and d.pattern:
-            t = re.sub(r"\s", "", A.text(d.node))
-            ok = "ret[i]=ad<G>(Tangent<G>::Unit(i)).sparseView();" in t
-            rep.instance("O5g", "generators_sparse", "init", ok=ok, sample={"file": fe.rel(d.file), "line": d.line})
-            if not ok:
-                rep.violation(Finding("O5g", "generators_sparse", "init", "generators are not built as ad<G>(Unit(i)).sparseView()", d.file, d.line))
-        if d.kind in A.FUNCS and d.qname.split("::")[-1] == "ad_sparse" and d.pattern and A.body(d.node) is not None:
-            b = A.body(d.node)
-            zeroed = False
-            summed = False
-            for x in A.walk(b):
-                if x.get("kind") in ("CallExpr", "CXXMemberCallExpr"):
-                    e = A.to_expr(x)
-                    if e[0] == "mcall" and e[2] == "setZero" and e[1][0] == "mcall" and e[1][2] == "coeffs" and e[1][1][0] == "ref" and e[1][1][1] == "sp":
-                        zeroed = True
-                if x.get("kind") == "ForStmt":
-                    ks = A.kids(x)
-                    cond = A.to_expr(ks[2])
-                    var = next((v.get("name") for v in A.kids(ks[0]) if v.get("kind") == "VarDecl"), None) if ks[0].get("kind") == "DeclStmt" else None
-                    full = cond[0] == "op" and cond[1] == "<" and cond[2][0] == "ref" and cond[2][1] == var and re.sub(r"\s", "", A.show(cond[3])) in ("Dof", "Dof<G>")
-                    for y in A.walk(ks[4]):
-                        if y.get("kind") in ("CompoundAssignOperator", "CXXOperatorCallExpr", "BinaryOperator"):
-                            e = A.to_expr(y)
-                            if e[0] == "op" and e[1] == "+=" and e[2][0] == "ref" and e[2][1] == "sp" and e[3][0] == "op" and e[3][1] == "*":
-                                fs = [e[3][2], e[3][3]]
-                                coef = [f_ for f_ in fs if f_[0] in ("call", "sub") and (f_[1] == "a" or (isinstance(f_[1], tuple) and f_[1][0] == "ref" and f_[1][1] == "a"))]
-                                gen = [f_ for f_ in fs if f_[0] == "sub" and "generators_sparse" in A.show(f_[1])]
-                                idx_ok = all(A.show(f_[2][0]) == var for f_ in coef + gen) if (coef and gen) else False
-                                if coef and gen and idx_ok and full:
-                                    summed = True
-            ok = zeroed and summed
-            rep.instance("O5g", "ad_sparse", "sum", ok=ok, sample={"file": fe.rel(d.file), "line": d.line, "zeroes_values": zeroed, "sums_generators": summed})
-            if not ok:
-                rep.violation(Finding("O5g", "ad_sparse", "sum", "ad_sparse does not zero the stored values and then add a(k)*generators_sparse<G>[k] for every k < Dof "
-                                      "(zeroed=%s, generator sum=%s)" % (zeroed, summed), d.file, d.line))
-
-
 def check(rep, tier, replay=None):
     rep.explanations.append(
-        "C19: offset discipline and structure preservation of the sparse writers (AST), published patterns partially evaluated "
-        "from the AST and compared with the zero structure LLVM's simplifier derives for the dense functions (IR), ad linearity (IR).")
-    rep.trusted.update(["clang++-16 front end; -O2 -ffast-math pipeline as zero-structure abstract interpreter", "lib/ir.py"])
-    rep.assumptions.append("values inside the block are copied from the dense result by construction in the fallback path; equality of values is not claimed")
-    objs = fe.ast_dump("lie_sparse")
-    rest = fe.ast_dump("_sparse")
-    rep.unit("umbrella TU filtered lie_sparse / _sparse")
-    idx = A.index(rest)
-    check_o1_o4(rep, idx)
-    check_o3(rep, objs)
-    check_generators(rep, idx)
-    check_o2(rep, objs, tier)
+        "C19: the sparse writers and the published patterns are abstractly executed on abstract groups and abstract host matrices (engine M: "
+        "effects on the host -- structure, entries outside the block, values inside it -- are compared with the dense result); the executed "
+        "patterns are compared with the zero structure LLVM's simplifier derives for the dense functions (IR); ad linearity (IR).")
+    rep.trusted.update(["clang++-16 front end; -O2 -ffast-math pipeline as zero-structure abstract interpreter", "lib/ir.py", "lib/mach.py object models of "
+                        "Eigen::SparseMatrix (coeffRef inserts when absent, insert requires absence, InnerIterator visits stored entries of one outer vector)"])
+    rep.assumptions.append("W1-W3 are bounded abstract executions: abstract groups R2, SO3-like, SE2, SE3, Bundle<SE2,R2,SO3>; offsets 0 and 2; column-major hosts")
+    names = ["generators_sparse", "ad_sparse_pattern", "ad_sparse", "d_exp_sparse_pattern", "d2_exp_sparse_pattern", "dr_exp_sparse", "dr_expinv_sparse",
+             "d2r_exp_sparse", "d2r_expinv_sparse", "lie_sparse"]
+    d = fe.ast_dumps(names)
+    rep.unit("umbrella TU filtered lie_sparse.hpp / lie_group_sparse_impl.hpp declarations")
+    patterns = c19m.check(rep, tier, d)
+    check_o2(rep, patterns, tier)
     check_o5(rep, tier)
